@@ -24,6 +24,7 @@ KK_TESTS = ["complex", "real", "imaginary", "complex-inv", "real-inv", "imaginar
 SMOOTHERS = ["none", "lowess", "modsinc", "savgol", "whithend", "auto"]
 INTERPOLATORS = ["akima", "makima", "cubic", "pchip", "auto"]
 FIT_METHODS = ["leastsq", "least_squares", "powell", "nelder", "lbfgsb", "bfgs", "tnc", "slsqp", "cg"]
+FIT_SYMBOLS = ["C", "G", "Ga", "H", "L", "La", "Ls", "Q", "R", "Tlm", "Tlmbo", "Tlmbq", "Tlmbs", "Tlmno", "Tlmnq", "Tlmns", "W", "Wo", "Ws", "Zarc", "Ha"]
 FIT_WEIGHTS = ["boukamp", "modulus", "proportional", "unity"]
 
 
@@ -128,9 +129,15 @@ def call_for(case: dict, st) -> Callable[[], Any]:
             kw["circuit"] = st["parse_cdc"](kw["circuit"])
         if "model_order" in kw and kw["model_order"] == "n+1":
             kw["model_order"] = case["n"] + 1
+        if kw.pop("with_fit", False):   # the documented fit= option: a FitResult obtained beforehand for the same circuit
+
+            def with_fit():
+                fit = st["fit"](kw["circuit"], d, method="least_squares", weight="boukamp", num_procs=1, max_nfev=200)
+                return st["drt"](d, method=case["method"], num_procs=1, **dict(kw, circuit=fit.circuit, fit=fit))
+            return with_fit
         return lambda: st["drt"](d, method=case["method"], num_procs=1, **kw)
     if e == "fit":
-        return lambda: st["fit"](st["parse_cdc"]("R(RC)"), d, method=case["method"], weight=case["weight"], num_procs=1, max_nfev=50)
+        return lambda: st["fit"](st["parse_cdc"](case.get("cdc", "R(RC)")), d, method=case["method"], weight=case["weight"], num_procs=1, max_nfev=50)
     raise ValueError(e)
 
 
@@ -274,6 +281,11 @@ def cases(thorough: bool) -> List[dict]:
             out.append({"entry": "fit", "n": n, "method": m, "weight": w})
         out.append({"entry": "fit", "n": n, "method": "auto", "weight": "auto"})
         out.append({"entry": "fit", "n": n, "method": ["leastsq", "powell"], "weight": "auto"})
+    # the fit= option of mrq-fit, and a fit of every registered element type (parameter symbols with underscores, containers, ...)
+    for cdc in ("R(RQ)", "R(RC)(RQ)"):
+        out.append({"entry": "drt", "n": 12, "method": "mrq-fit", "kw": {"circuit": cdc, "with_fit": True}})
+    for sym in FIT_SYMBOLS:
+        out.append({"entry": "fit", "n": 12, "method": "least_squares", "weight": "boukamp", "cdc": "R" + sym})
     # option values given as NumPy scalars
     for test, C, L, adm in itertools.product(KK_TESTS, (False, True), (False, True), (False, True, None)):
         if test == "cnls" and not (C and L and adm is False):
@@ -316,7 +328,7 @@ def run(ctx) -> None:
                 "add_capacitance x add_inductance x rapid x three (min, max) log F_ext pairs; Z-HIT: {fixed, auto} smoothing x interpolation x window "
                 "{auto, boxcar, bogus} x weights as a full product plus an all-pairs array (full product in thorough) over 6 smoothers x 5 interpolators x "
                 "{Z, Y} x weights x 4 windows x 4 (num_points, polynomial_order) pairs on 3, 5, 12 points; DRT: tr-nnls 2 modes x 3 lambda modes, lm x 2 "
-                "order methods x model_order {0, 2, n+1}, bht (2 configurations), mrq-fit (valid and invalid circuits), tr-rbf, on 1, 2, 3, 5, 12 points; "
+                "order methods x model_order {0, 2, n+1}, bht (2 configurations), mrq-fit (valid and invalid circuits; with the fit= option), tr-rbf, on 1, 2, 3, 5, 12 points; a least-squares fit of R + every registered element type; "
                 "fit: 9 methods x 4 weights, auto/auto and a method list on 1, 2, 5, 12 points, and every form of the method argument (name, auto, "
                 "lists of 1-3) x every form of the weight argument (name, auto, lists of 1-3); option values given as NumPy scalars (numpy.bool_ / int64 / float64); Z-HIT / KK / DRT / fit calls made directly after "
                 "the same call on a spectrum over the same frequency range with another number of points (outcome must equal that of a first call). Plus an explicit-state search of the Progress counter "
